@@ -108,6 +108,16 @@ func verifC11Case(out *verifOut, c verifCase) {
 	} else if msg := verifC11Compare(expected, view); msg != "" {
 		out.Mon(c.id, sig("c11:namespace-mismatch"), "%s", msg)
 	}
+	// the (sorted) view is part of the observation: the model computes it with Aml/View.v
+	if verr == "" {
+		obs = append(obs, uint64(len(view)))
+		for _, e := range view {
+			obs = append(obs, uint64(len(e)))
+			obs = append(obs, e...)
+		}
+	} else {
+		obs = append(obs, 0xbadbad)
+	}
 	out.Obs(c.id, obs)
 }
 
